@@ -197,6 +197,14 @@ def run_unit(ck, unit):
                 return ('violation', path, label + ': panic') if ('panic' in n0 or 'panic' in n1) else ('spurious', 'native failure')
             ck.replays_ok += 1
             if n0['verdict'] == n1['verdict']:
+                if os.environ.get('VERIF_DEBUG_SPURIOUS'):
+                    dbg = {}
+                    for nm_, e_ in (('orig', o), ('perm', v)):
+                        tr_ = [i for i, r_ in enumerate(e_['results']) if z3.is_true(model.eval(z3bool(r_.cond()), model_completion=True))]
+                        dbg[nm_] = {'res': str(model.eval(e_['res'], model_completion=True)), 'true_paths': tr_,
+                                    'values': [str(e_['results'][i].value) + '/' + e_['results'][i].kind for i in tr_],
+                                    'pcs': [[str(c)[:3000] for c in e_['results'][i].pc] for i in tr_[:2]]}
+                    json.dump(dbg, open(path + '.dbg', 'w'), indent=1)
                 return ('spurious', 'native verdicts agree (%s)' % path)
             return ('violation', path, '%s: original=%s permuted=%s on %s' % (label, n0['verdict'], n1['verdict'], json.dumps(docj)))
         ck.obligation(label, tr.uni, (o['res'] == TRUE) != (v['res'] == TRUE), sample={'rule': name, 'permutation': desc}, on_sat=on_sat)
